@@ -479,3 +479,29 @@ func usageBytes(res *Result) int {
 	}
 	return len(b)
 }
+
+// Long: the sessions of one subscriber through hundreds of requests (sequence numbers, container counts and
+// record sizes grow far beyond those of the random histories; the record splits along the way).
+func genRecLong(t *rapid.T) Hist {
+	hst := genC01Long(t)
+	for i := range hst.Ops {
+		if hst.Ops[i].K == "update" && i%2 == 0 {
+			hst.Ops[i].UUs[0].Conts = append(hst.Ops[i].UUs[0].Conts, Cont{Q: "offline", Tot: int32(i), Up: int32(i % 7), Down: 1, SSU: int32(i % 5), Pm: -1})
+		}
+	}
+	hst.TZ = rapid.SampledFrom(zonePool).Draw(t, "tz")
+	return hst
+}
+
+func longOf(prop string) func(Hist) *h.Verdict {
+	j := judgeRecords(prop)
+	return func(hst Hist) *h.Verdict {
+		v := j(hst)
+		v.Label("history>=300-requests")
+		v.NonTrivial = true
+		return v
+	}
+}
+
+func TestC02Long(t *testing.T) { h.Run(t, "C02", "long", genRecLong, longOf("C02")) }
+func TestC03Long(t *testing.T) { h.Run(t, "C03", "long", genRecLong, longOf("C03")) }
